@@ -103,14 +103,14 @@ func VH_C12_regex() {
 	db := Open(root)
 	LowercaseNames = false
 	vAssert("C12.regex.create", db.Create(&vTwinIdx{}, DefaultSchema) == nil && db.Create(&vTwinNo{}, DefaultSchema) == nil)
-	vals := []string{"foo", "foobar", "barfoo", "xfoox", "FOO", "", "bar"}
+	vals := []string{"foo", "foobar", "barfoo", "xfoox", "FOO", "", "bar", "foo\U0001F600", "foo\uffff", "fop", "fon\U0010FFFF"}
 	var ui, un []string
 	for k, v := range vals {
 		x, y := &vTwinIdx{A: int64(k), S: v}, &vTwinNo{A: int64(k), S: v}
 		vAssert("C12.regex.insert", db.InsertOrUpdate(x) == nil && db.InsertOrUpdate(y) == nil)
 		ui, un = append(ui, x.UUID()), append(un, y.UUID())
 	}
-	pats := []string{"foo", "^foo$", "", "^foo", "foo$", "fo+", "(?i:foo)", "bar", "^$", "o", "[", "x.*x"}
+	pats := []string{"foo", "^foo$", "", "^foo", "foo$", "fo+", "(?i:foo)", "bar", "^$", "o", "[", "x.*x", "^foo.$", "^foo.+", "^fo[n-p]", "^(foo|bar)"}
 	pat := pats[vChoice("pattern", len(pats))]
 	viaAnd := vChoice("via_and", 2) == 1
 	var si, sn *Search
